@@ -12,6 +12,7 @@ from .commons import (
     dump_xml_header,
     DATE_FMT_DEFAULT,
     xml2dict,
+    as_list,
     get_format,
 )
 
@@ -127,7 +128,7 @@ def _loads_xml(string):
         if "ANGLE_TYPE" in meta:
             angle_type = meta["ANGLE_TYPE"].text
 
-        for obs in segment["data"]["observation"]:
+        for obs in as_list(segment["data"]["observation"]):
             date = parse_date(obs.pop("EPOCH").text, scale)
             meas_type, value = list(obs.items())[0]
             value = float(value.text)
